@@ -449,7 +449,7 @@ pub fn child_main(path: &str) -> i32 {
 
 /// 10% of the cases are materialised on disk so that error rendering takes the file-reading path.
 fn judge_on_disk(st: &mut Stats, case: u64, family: &str, files: &Files, hazard: Option<String>) {
-    let dir = std::env::temp_dir().join(format!("vcheck-c07-{}-{}", std::process::id(), case));
+    let dir = verif_root().join(".target").join("runs").join(format!("c07disk-{}-{}", std::process::id(), case));
     let _ = std::fs::remove_dir_all(&dir);
     let mut disk = Files::new();
     for (k, v) in files {
